@@ -7,8 +7,8 @@ affinity), written from the property statements.
 C15. "An analyzer with the filter installed reports exactly what the same analyzer without a
 filter reports for the sub-trace of packets whose own source and destination (as the analyzer
 itself reports them) the filter admits."  — `Commutes`.
-The statement is about two decoders of the same bytes agreeing — `Agree` — and `Agrees` says, in
-terms of the frame alone, when they do (theorem `agree_iff`).
+The statement is about two decoders of the same bytes agreeing — `Agree` (theorem
+`decoders_agree`: after the fixes 68f354c and 1765a5f they agree on every frame).
 
 C18. "The worker chosen for a packet is a function of its connection identity alone (the 4-tuple
 irrespective of direction for HTTP, the directed 4-tuple for TLS, the source address for TCP) …
@@ -52,32 +52,6 @@ instance (a p) : Decidable (Agree a p) := by unfold Agree; exact inferInstance
 def AgreeFor (a : Analyzer) (c : Config) (p : Bytes) : Prop :=
   analyzerEndpoints a p = none ∨ rawFilterApply c p = ownAdmits a c p
 instance (a c p) : Decidable (AgreeFor a c p) := by unfold AgreeFor; exact inferInstance
-
-/-- The two TCP port fields found at offset `off` of an IP packet. -/
-def portsAt (ip : Bytes) (off : Nat) : Nat × Nat := (be16 ip off, be16 ip (off + 2))
-
-/-- Exactly the frames on which the decoders agree, in terms of the frame:
-* frames the analyzer discards;
-* IPv6 in Ethernet or raw framing;
-* IPv6 behind a loopback header `1e 00 00 00` (the little-endian AF_INET6 = 30 the filter wants);
-* IPv4 in Ethernet or raw framing whose header length is at least 5 words — or whose four bytes at
-  `ihl*4` happen to equal the four bytes at offset 20;
-and *no* IPv4 frame behind a `1e 00` loopback header. -/
-def AgreesView (p : Bytes) (v : View) : Prop :=
-  match v.loc.fr, v.loc.ver with
-  | .null, .v4 => False
-  | .null, .v6 => byte p 2 = 0 ∧ byte p 3 = 0
-  | _, .v6 => True
-  | _, .v4 => 5 ≤ v4Ihl v.loc.ip ∨ portsAt v.loc.ip (v4Ihl v.loc.ip * 4) = portsAt v.loc.ip 20
-instance (p v) : Decidable (AgreesView p v) := by
-  unfold AgreesView; split <;> exact inferInstance
-
-def Agrees (a : Analyzer) (p : Bytes) : Prop :=
-  match analyzerView a p with
-  | none => True
-  | some v => AgreesView p v
-instance (a p) : Decidable (Agrees a p) := by
-  unfold Agrees; split <;> exact inferInstance
 
 /-! ## C18 (pure half) -/
 
@@ -148,27 +122,6 @@ def wireEndpoints (fr : Framing) (p : Bytes) : Option Ep :=
 end Huginn.Wire.Spec
 
 /-! ## known-finding classes (decidable exclusion predicates) -/
-namespace Huginn.KF.C15
-open Huginn.Wire
-
-/-- IPv4 in Ethernet/raw framing with header length < 5 words: pnet reads the TCP header at
-offset 20, the filter at `ihl*4`. -/
-def ihlBelow5 (a : Analyzer) (p : Bytes) : Prop :=
-  match analyzerView a p with
-  | none => False
-  | some v => v.loc.fr ≠ .null ∧ v.loc.ver = .v4 ∧ v4Ihl v.loc.ip < 5
-instance (a p) : Decidable (ihlBelow5 a p) := by unfold ihlBelow5; split <;> exact inferInstance
-
-/-- NULL/loopback framing as the parser understands it (`1e 00 ?? ??`) that the filter does not
-read the same way: every IPv4 frame, and IPv6 frames whose header is not `1e 00 00 00`. -/
-def nullHeader (a : Analyzer) (p : Bytes) : Prop :=
-  match analyzerView a p with
-  | none => False
-  | some v => v.loc.fr = .null ∧ ¬ (v.loc.ver = .v6 ∧ byte p 2 = 0 ∧ byte p 3 = 0)
-instance (a p) : Decidable (nullHeader a p) := by unfold nullHeader; split <;> exact inferInstance
-
-end Huginn.KF.C15
-
 namespace Huginn.KF.C18
 open Huginn.Wire
 
@@ -190,19 +143,12 @@ def versionNibble (l : Located) : Prop :=
   l.fr = .eth ∧ ¬ (byte l.ip 0 / 16 = (match l.ver with | .v4 => 4 | .v6 => 6))
 instance (l) : Decidable (versionNibble l) := by unfold versionNibble; exact inferInstance
 
-/-- IPv4 header length < 5 words: the analyzer's ports are at offset 20, the hashers' at `ihl*4`
-(HTTP and TLS hash the ports; TCP hashes only the source address and is not affected). -/
-def ihlBelow5 (l : Located) : Prop := l.ver = .v4 ∧ v4Ihl l.ip < 5
-instance (l) : Decidable (ihlBelow5 l) := by unfold ihlBelow5; exact inferInstance
-
-/-- The frame, as the analyzer decodes it, lies in one of the classes (`ports`: the hasher in
-question also hashes the ports). -/
-def seen (a : Analyzer) (ports : Bool) (p : Bytes) : Prop :=
+/-- The frame, as the analyzer decodes it, lies in one of the classes. -/
+def seen (a : Analyzer) (p : Bytes) : Prop :=
   match analyzerView a p with
   | none => False
-  | some v => looksLikeEthernet v.loc.fr p ∨ nullFraming v.loc.fr ∨ versionNibble v.loc ∨
-      (ports = true ∧ ihlBelow5 v.loc)
-instance (a b p) : Decidable (seen a b p) := by unfold seen; split <;> exact inferInstance
+  | some v => looksLikeEthernet v.loc.fr p ∨ nullFraming v.loc.fr ∨ versionNibble v.loc
+instance (a p) : Decidable (seen a p) := by unfold seen; split <;> exact inferInstance
 
 /-- The frame of declared link type `fr` lies in one of the classes. -/
 def wire (fr : Framing) (p : Bytes) : Prop := looksLikeEthernet fr p ∨ nullFraming fr
